@@ -15,6 +15,9 @@ def _root_.PyPhysim.Cazac.CellOp.isQuery : CellOp F → Bool
   | .query => true
   | _ => false
 
+/-- constructions and copies (everything that is not a read-only call) -/
+def notQuery (op : CellOp F) : Bool := !op.isQuery
+
 theorem step_root (norm : List F → F) (c : Cell F) (op : CellOp F) :
     (c.step norm op).1.root = c.root := by
   cases op with
@@ -62,22 +65,25 @@ theorem runOps_users_prefix (norm : List F → F) (c : Cell F) (ops : List (Cell
 
 /-- read-only calls are transparent: erasing them from a history gives the same cell -/
 theorem runOps_queries_transparent (norm : List F → F) (c : Cell F) (ops : List (CellOp F)) :
-    (Cell.runOps norm c ops).1 = (Cell.runOps norm c (ops.filter (fun op => !op.isQuery))).1 := by
+    (Cell.runOps norm c ops).1 = (Cell.runOps norm c (ops.filter notQuery)).1 := by
   induction ops generalizing c with
   | nil => rfl
   | cons op rest ih =>
     cases op with
     | query =>
+      have hq : ¬ (notQuery (CellOp.query : CellOp F) = true) := by simp [notQuery, CellOp.isQuery]
+      rw [List.filter_cons_of_neg hq]
       show (Cell.runOps norm c rest).1 = _
       rw [ih]
-      simp [CellOp.isQuery]
     | build sp =>
-      simp only [List.filter_cons, CellOp.isQuery, Bool.not_false, if_true]
+      have hq : notQuery (CellOp.build sp : CellOp F) = true := rfl
+      rw [List.filter_cons_of_pos hq]
       show (Cell.runOps norm (c.step norm (.build sp)).1 rest).1
         = (Cell.runOps norm (c.step norm (.build sp)).1 _).1
       rw [ih]
     | copy j =>
-      simp only [List.filter_cons, CellOp.isQuery, Bool.not_false, if_true]
+      have hq : notQuery (CellOp.copy j : CellOp F) = true := rfl
+      rw [List.filter_cons_of_pos hq]
       show (Cell.runOps norm (c.step norm (.copy j)).1 rest).1
         = (Cell.runOps norm (c.step norm (.copy j)).1 _).1
       rw [ih]
@@ -114,7 +120,10 @@ theorem estimate1_flag (r Y : List F) (m K : ℕ) :
     estimate1 r true m Y K
       = (estimate1 r false m Y K).map (fun H => H.map (fun v => v * ((r.length : ℕ) : F))) := by
   unfold estimate1
-  simp only
-  split_ifs <;> rfl
+  by_cases h1 : Y.length ≠ r.length
+  · simp [h1, Except.map]
+  · by_cases h2 : m * r.length = 0
+    · simp [h1, h2, Except.map]
+    · simp [h1, h2, Except.map]
 
 end PyPhysim.C18P
